@@ -11,7 +11,7 @@ using namespace sim;
 
 enum { OP_ONLINE = 0, OP_OFFLINE, OP_READ, OP_QS, OP_UPDATE, OP_RUN, OP_BARRIER, OP_N };
 static const char *op_names[OP_N] = {"online", "offline", "read", "qs", "update", "run", "barrier"};
-static const char *cfg_names[3] = {"M=SimMutex", "M=ticket_spinlock", "M=simple_spinlock"};
+static const char *cfg_names[MT_N] = {"M=SimMutex", "M=ticket_spinlock", "M=simple_spinlock", "M=SimMutex with try_lock()"};
 static const uint64_t RECLAIMED = 0xDEADDEADDEADDEADull;
 
 static int P_cb, P_rereg, P_deferred, P_join_mid, P_leave_mid, P_multi_pending, P_barrier_ret, P_deferred_stop, P_reads, P_held_reads, P_offline_run, P_closing_rounds, P_sync_reclaim, P_skipped, P_recycled, P_nested_run, P_update_in_cb, P_aged_domain, P_offline_register;
@@ -54,7 +54,7 @@ struct QsEngine : Engine {
 	const char *name() override { return "simqs"; }
 	const char *op_name(int k) override { return k >= 0 && k < OP_N ? op_names[k] : "?"; }
 	int op_kind(const std::string &n) override { for (int i = 0; i < OP_N; i++) if (n == op_names[i]) return i; return -1; }
-	const char *cfg_name(int c) override { return c >= 0 && c < 3 ? cfg_names[c] : "?"; }
+	const char *cfg_name(int c) override { return c >= 0 && c < MT_N ? cfg_names[c] : "?"; }
 	const char *property_of(const std::string &cls, const std::string &) override { return "C11"; }
 	bool panic_is_stop(const char *msg) override {
 		// documented TODO in offline(): "We need to handle this case here" — the agent holding the deferred period cannot
@@ -69,7 +69,7 @@ struct QsEngine : Engine {
 
 	void generate(Rng &rng, Plan &p, const std::string &profile, int tier) override {
 		int c = (int)rng.below(100);
-		p.cfg = c < 50 ? MT_SIM : c < 75 ? MT_TICKET : MT_SIMPLE;
+		p.cfg = c < 38 ? MT_SIM : c < 52 ? MT_SIMTRY : c < 76 ? MT_TICKET : MT_SIMPLE;
 		if (p.knobs.count("force_cfg")) p.cfg = (int)p.knobs["force_cfg"];
 		int a = (int)rng.below(10);
 		p.ntasks = a < 1 ? 1 : a < 6 ? 2 : 3;
